@@ -719,6 +719,13 @@ package kcache
   ghost completed : Bool := false
   at call(ShutdownCompleted) set completed := true
   exit [completion-is-always-signalled-when-the-actor-returns] completed
+  ghost subEnding : Bool := false
+  ghost subDone : Bool := false
+  at call(Close) set subEnding := true
+  at recv(Events) set subEnding := (or subEnding (not $ok))
+  at recv(Done) assert [waits-for-the-subscription-only-in-a-select-or-once-it-is-ending] (=> $bare subEnding)
+  at recv(Done) set subDone := true
+  at call(ShutdownCompleted) assert [the-subscription-has-finished-before-done-closes] subDone
 @*/
 
 /*@ neverclosed kcache._cache.syncch kcache._cache.updatech kcache._cache.refilterch kcache._cache.listch kcache._cache.getch
@@ -823,12 +830,15 @@ package kcache
   at call(NewTimer).after set tstate := 1
   at call(Stop).after assume [timer-semantics-stop-reports-true-only-for-an-armed-timer] (=> $result (= tstate 1))
   at call(Stop).after set tstate := (ite $result 0 tstate)
+  at call(Reset) assert [no-stale-tick-left-in-the-timer-channel-when-it-is-rearmed] (= tstate 0)
   at call(Reset) set tstate := 1
   at recv(C) assume [timer-semantics-a-timer-case-fires-only-when-a-value-is-or-will-be-available] (=> (not $bare) (= tstate 1))
   at recv(C) assert [bare-receive-from-the-timer-finds-a-value] (=> $bare (= tstate 1))
   at recv(C) set tstate := 0
   loop 1 inv [tick-pending-xor-timer-running] (and (= (not (= {nextch} vnil)) (= tstate 0)) (or (= tstate 0) (= tstate 1))
         (or (= {nextch} vnil) (= {nextch} {t.nextch})) (not (= {timer} vnil)) (not {closed(t.donech)}))
+  at default assume [timer-semantics-a-fired-timers-value-is-in-its-channel-so-a-non-blocking-receive-finds-it] (= tstate 0)
+  exit [done-is-closed-when-the-ticker-returns] {closed(t.donech)}
 @*/
 
 /*@ iface kcache.ticker.Next
@@ -847,6 +857,7 @@ package kcache
   props C13
   fresh result
   ensures (not (= result vnil))
+  at go(run) assert [the-ticker-loop-is-started-on-the-new-ticker] (and (not (= {t.nextch} vnil)) (not (= {t.resetch} vnil)) (not (= {t.stopch} vnil)) (not (= {t.donech} vnil)))
 @*/
 /*@ func (*kcache._lister).list
   props C13 C12
@@ -858,6 +869,7 @@ package kcache
   at go(list$2) set listSpawned := true
   exit [the-in-flight-list-is-cancelled-on-shutdown-and-its-completion-is-signalled] (and cancellerSpawned listSpawned)
   ensures [channels-of-the-new-list-call] (and (not (= result0 vnil)) (not (= result1 vnil)))
+  at go(list$2) assert [the-list-goroutine-can-always-deliver-its-result-and-exit] (>= (chancap {runch}) 1)
 @*/
 /*@ func (*kcache._lister).list$1
   props C12 C13
@@ -913,6 +925,14 @@ package kcache
   ghost completed : Bool := false
   at call(ShutdownCompleted) set completed := true
   exit [completion-is-always-signalled-when-the-actor-returns] completed
+  ghost tickerStopped : Bool := false
+  ghost tickerJoined : Bool := false
+  ghost listJoined : Bool := false
+  at call(Stop) set tickerStopped := true
+  at recv(Done) assert [the-ticker-is-stopped-before-it-is-waited-for] tickerStopped
+  at recv(Done) set tickerJoined := true
+  at recv(donech) set listJoined := true
+  at call(ShutdownCompleted) assert [ticker-stopped-and-joined-and-the-last-list-call-finished] (and tickerStopped tickerJoined listJoined)
 @*/
 
 /*@ func (*kcache._lister).executeList
@@ -978,11 +998,42 @@ package kcache
   ghost completed : Bool := false
   at call(ShutdownCompleted) set completed := true
   exit [completion-is-always-signalled-when-the-actor-returns] completed
+  ghost cause : Bool := false
+  ghost connected : Bool := false
+  ghost connStopped : Bool := false
+  ghost ctxCancelled : Bool := false
+  ghost frameObj : V := vnil
+  at call(connect).after set connected := (= $result1 vnil)
+  at call(connect).after set cause := (not (= $result1 vnil))
+  at recv(ShutdownRequest) set cause := true
+  at recv(ResultChan) set cause := (not $ok)
+  at recv(ResultChan) set frameObj := (|watch.Event.Object| $val)
+  at call(logStatus) assert [only-status-frames-are-skipped] (and (not (= frameObj vnil)) (= (dyntype frameObj) |ty!*meta/v1.Status|))
+  at call(Accessor) assert [object-frames-are-decoded] (and (= $0 frameObj) (not (and (not (= frameObj vnil)) (= (dyntype frameObj) |ty!*meta/v1.Status|))))
+  at call(Accessor).after set cause := (not (= $result1 vnil))
+  at send(s.outch) assert [never-forwards-a-nil-event] (not (= $val vnil))
+  at call(ShutdownInitiated) assert [the-session-ends-only-on-request-connection-loss-or-an-undecodable-frame] cause
+  at call(Stop) set connStopped := true
+  at call(dyncall) set ctxCancelled := true
+  at call(ShutdownCompleted) assert [connection-stopped-and-context-released-before-done] (and (=> connected connStopped) ctxCancelled)
 @*/
 
 /*@ iface kcache.watchSession.events
 @*/
 /*@ iface kcache.watchSession.done
+  theory actors
+  ensures [only-the-null-session-has-no-done-channel] (= (= result vnil) (= (dyntype $recv) |ty!kcache.nullWatchSession|))
+@*/
+/*@ func (kcache.nullWatchSession).done
+  props C04 C12
+  theory actors
+  implements kcache.watchSession.done
+@*/
+/*@ func (*kcache._watchSession).done
+  props C04 C12
+  theory actors
+  implements kcache.watchSession.done
+  requires (and (not (= {s} vnil)) (not (= {s.lc} vnil)))
 @*/
 /*@ iface kcache.watchSession.stop
 @*/
@@ -992,7 +1043,9 @@ package kcache
   props C04
   fresh result
   requires (and (not (= {log} vnil)) (not (= {ctx} vnil)))
-  ensures (not (= result vnil))
+  ensures (and (not (= result vnil)) (= (dyntype result) |ty!*kcache._watchSession|))
+  at go(WatchContext) assert [the-session-stops-with-its-context] (= $0 {ctx})
+  at go(run) assert [the-session-loop-is-started-fully-wired] (and (not (= {s.outch} vnil)) (= {s.lc} {lc}) (= {s.cancel} {cancel}) (= {s.version} {version}) (= {s.client} {client}))
 @*/
 /*@ func (*kcache._watcher).scheduleRetry
   props C04
@@ -1059,6 +1112,38 @@ package kcache
   ghost completed : Bool := false
   at call(ShutdownCompleted) set completed := true
   exit [completion-is-always-signalled-when-the-actor-returns] completed
+  ghost needSession : Bool := false
+  ghost needRetrych : Bool := false
+  ghost sessionDone : Bool := false
+  ghost liveSession : Bool := false
+  ghost retryArmed : Bool := false
+  ghost cancelled : Bool := false
+  at recv(resetch) set needSession := true
+  at recv(retrych) set needSession := true
+  at recv(retrych) set retryArmed := false
+  at recv(resetch) set needRetrych := true
+  at store(retrych) set needRetrych := false
+  at call(stop) set liveSession := false
+  at call(newWatchSession) assert [the-previous-session-was-stopped-or-had-finished] (not liveSession)
+  at call(newWatchSession) set needSession := false
+  at call(newWatchSession).after set liveSession := true
+  at recv(done) set sessionDone := true
+  at recv(done) set liveSession := false
+  at store(session) set sessionDone := false
+  at call(scheduleRetry).after set retryArmed := true
+  at call(Stop) set retryArmed := false
+  at store(outch) assert [a-reset-cancels-the-pending-reconnect] (not retryArmed)
+  at call(dyncall) set cancelled := true
+  at recv(donech) assert [the-sessions-context-is-cancelled-before-waiting-for-the-session] cancelled
+  at recv(donech) set liveSession := false
+  at call(ShutdownCompleted) assert [no-session-left-running] (not liveSession)
+  at call(ShutdownCompleted) assert [no-reconnect-timer-left-armed] (not retryArmed)
+  at call(ShutdownCompleted) assert [the-sessions-context-is-cancelled] cancelled
+  loop 1 inv [every-reset-and-every-due-reconnect-starts-a-session] (not needSession)
+  loop 1 inv [a-running-session-is-a-real-session] (=> liveSession (= (dyntype {session}) |ty!*kcache._watchSession|))
+  loop 1 inv [an-armed-reconnect-timer-is-remembered] (=> retryArmed (not (= {retry} vnil)))
+  loop 1 inv [every-reset-replaces-the-reconnect-channel] (not needRetrych)
+  loop 1 inv [a-finished-session-is-replaced-and-not-selected-again] (not sessionDone)
 @*/
 
 /*@ immutable kcache._subscription.readych kcache._subscription.outch kcache._subscription.inch kcache._subscription.cache kcache._subscription.lc
@@ -1316,6 +1401,14 @@ package kcache
   ghost completed : Bool := false
   at call(ShutdownCompleted) set completed := true
   exit [completion-is-always-signalled-when-the-actor-returns] completed
+  ghost evtOK : Bool := false
+  ghost parentClosed : Bool := false
+  at recv(Events) set evtOK := $ok
+  at recv(Events) set parentClosed := (not $ok)
+  at call(distributeEvent) assert [distributes-only-events-actually-received] evtOK
+  at call(ShutdownInitiated) assert [stops-only-when-the-parent-closed-its-events] parentClosed
+  at recv(unsubscribech) assert [drain-waits-only-while-subscriptions-remain] (=> (= lc 1) (exists ((x V)) (select {dom(s.subscriptions)} x)))
+  at call(ShutdownCompleted) assert [every-subscription-has-unsubscribed] (forall ((x V)) (not (select {dom(s.subscriptions)} x)))
 @*/
 
 /*@ func (*kcache.publisher).Subscribe
@@ -1598,22 +1691,6 @@ package kcache
   ensures (not (= result vnil))
 @*/
 
-/*@ func (kcache.handler).OnInitialize
-  props C16
-  at call(dyncall) assert [calls-the-registered-initialize-callback-with-the-same-list] (and (= $fn {h.onInitialize}) (= $0 {objs}))
-@*/
-/*@ func (kcache.handler).OnCreate
-  props C16
-  at call(dyncall) assert [calls-the-registered-create-callback-with-the-same-object] (and (= $fn {h.onCreate}) (= $0 {obj}))
-@*/
-/*@ func (kcache.handler).OnUpdate
-  props C16
-  at call(dyncall) assert [calls-the-registered-update-callback-with-the-same-object] (and (= $fn {h.onUpdate}) (= $0 {obj}))
-@*/
-/*@ func (kcache.handler).OnDelete
-  props C16
-  at call(dyncall) assert [calls-the-registered-delete-callback-with-the-same-object] (and (= $fn {h.onDelete}) (= $0 {obj}))
-@*/
 /*@ func (*kcache.handlerBuilder).OnInitialize
   props C16
   requires (not (= {hb} vnil))
@@ -1817,4 +1894,40 @@ package kcache
   at call(Log) assert [and-log] (= $0 {log})
   at call(Client) assert [and-client] (= $0 {client})
   ensures (=> (= result1 vnil) (not (= result0 vnil)))
+@*/
+
+/*@ func (kcache.handler).OnInitialize
+  props C16
+  note the handler built by BuildHandler: forwards to the registered callback, if any, exactly once and with the same argument
+  ghost called : Bool := false
+  at call(dyncall) assert [calls-the-registered-callback-with-the-same-argument-once] (and (= $fn {h.onInitialize}) (= $0 {objs}) (not called))
+  at call(dyncall) set called := true
+  exit [the-callback-is-called-exactly-when-one-is-registered] (= called (not (= {h.onInitialize} vnil)))
+@*/
+
+/*@ func (kcache.handler).OnCreate
+  props C16
+  note the handler built by BuildHandler: forwards to the registered callback, if any, exactly once and with the same argument
+  ghost called : Bool := false
+  at call(dyncall) assert [calls-the-registered-callback-with-the-same-argument-once] (and (= $fn {h.onCreate}) (= $0 {obj}) (not called))
+  at call(dyncall) set called := true
+  exit [the-callback-is-called-exactly-when-one-is-registered] (= called (not (= {h.onCreate} vnil)))
+@*/
+
+/*@ func (kcache.handler).OnUpdate
+  props C16
+  note the handler built by BuildHandler: forwards to the registered callback, if any, exactly once and with the same argument
+  ghost called : Bool := false
+  at call(dyncall) assert [calls-the-registered-callback-with-the-same-argument-once] (and (= $fn {h.onUpdate}) (= $0 {obj}) (not called))
+  at call(dyncall) set called := true
+  exit [the-callback-is-called-exactly-when-one-is-registered] (= called (not (= {h.onUpdate} vnil)))
+@*/
+
+/*@ func (kcache.handler).OnDelete
+  props C16
+  note the handler built by BuildHandler: forwards to the registered callback, if any, exactly once and with the same argument
+  ghost called : Bool := false
+  at call(dyncall) assert [calls-the-registered-callback-with-the-same-argument-once] (and (= $fn {h.onDelete}) (= $0 {obj}) (not called))
+  at call(dyncall) set called := true
+  exit [the-callback-is-called-exactly-when-one-is-registered] (= called (not (= {h.onDelete} vnil)))
 @*/
